@@ -43,7 +43,7 @@ structure StratState (M : Type) where
   mem : M
 
 inductive Event where
-  | hook (route : Nat) (name : String) (index : Nat) (price : Rat) (posQty : Rat)
+  | hook (route : Nat) (name : String) (index : Nat) (price : Rat) (posQty : Rat) (posPnl : Rat)
   | submit (id : Nat) (sym : Nat) (side : Side) (type : OrderType) (qty price : Rat) (ro : Bool)
   | reject (kind : Err)
   | fill (id : Nat) (time : Int) (price qty : Rat)
@@ -287,7 +287,7 @@ def runHook (e : Engine M) (r : Nat) (name : String) (h : M → Decl → M × De
   let st := stratOf e r
   let res := h st.mem st.decl
   let e1 := setStrat e r (fun s => { s with mem := res.1, decl := res.2 })
-  logE e1 (Event.hook r name st.index (priceOf e r) (posOf e (routeOf e r).sym).qty)
+  logE e1 (Event.hook r name st.index (priceOf e r) (posOf e (routeOf e r).sym).qty (posOf e (routeOf e r).sym).pnl)
 
 /-- `_reset` -/
 def resetStrategy (e : Engine M) (r : Nat) : Engine M :=
@@ -307,7 +307,7 @@ def executeCancel (e : Engine M) (r : Nat) : Engine M :=
   let e3 := resetStrategy e2 r
   -- _broadcast('route-canceled'): other strategies re-check their declarations
   let e4 := (List.range e3.cfg.routes.length).foldl (fun e r' => if r' = r then e else detectModifications e r') e3
-  logE e4 (Event.hook r "on_cancel" (stratOf e r).index (priceOf e r) 0)
+  logE e4 (Event.hook r "on_cancel" (stratOf e r).index (priceOf e r) 0 (posOf e (routeOf e r).sym).pnl)
 
 /-- `_on_open_position` -/
 def onOpenPosition (e : Engine M) (r : Nat) (oid : Nat) : Engine M :=
@@ -433,7 +433,7 @@ def check (fuel : Nat) (e : Engine M) (r : Nat) : Engine M :=
   -- should cancel entry?
   let e1 :=
     if (entryOrders e sym).length > 0 ∧ (posOf e sym).qty = 0 then
-      let e' := logE e (Event.hook r "should_cancel_entry" (stratOf e r).index (priceOf e r) 0)
+      let e' := logE e (Event.hook r "should_cancel_entry" (stratOf e r).index (priceOf e r) 0 (posOf e sym).pnl)
       if u.shouldCancelEntry e r (stratOf e r).mem then executeCancel e' r else e'
     else e
   -- update position
@@ -447,10 +447,10 @@ def check (fuel : Nat) (e : Engine M) (r : Nat) : Engine M :=
     let e4 := resetStrategy e3 r
     let st := stratOf e4 r
     let sShort := u.shouldShort e4 r st.mem
-    let e5 := logE e4 (Event.hook r "should_short" st.index (priceOf e4 r) 0)
+    let e5 := logE e4 (Event.hook r "should_short" st.index (priceOf e4 r) 0 (posOf e4 sym).pnl)
     if spot ∧ sShort then fail e5 .InvalidStrategy else
     let sLong := u.shouldLong e5 r st.mem
-    let e6 := logE e5 (Event.hook r "should_long" st.index (priceOf e5 r) 0)
+    let e6 := logE e5 (Event.hook r "should_long" st.index (priceOf e5 r) 0 (posOf e5 sym).pnl)
     if sShort ∧ sLong then fail e6 .Other
     else if sLong then executeEntry u e6 r true spot
     else if sShort then executeEntry u e6 r false spot
@@ -465,12 +465,12 @@ def executeStrategy (fuel : Nat) (e : Engine M) (r : Nat) : Engine M :=
   let e0 := setStrat e r (fun s => { s with cachedPrice := some price })
   let st := stratOf e0 r
   let e1 := logE (setStrat e0 r (fun s => { s with mem := u.before e0 r st.mem }))
-    (Event.hook r "before" st.index price (posOf e0 rc.sym).qty)
+    (Event.hook r "before" st.index price (posOf e0 rc.sym).qty (posOf e0 rc.sym).pnl)
   let e2 := check u fuel e1 r
   if e2.err.isSome then e2 else
   let st2 := stratOf e2 r
   let e3 := logE (setStrat e2 r (fun s => { s with mem := u.after e2 r st2.mem }))
-    (Event.hook r "after" st2.index (priceOf e2 r) (posOf e2 rc.sym).qty)
+    (Event.hook r "after" st2.index (priceOf e2 r) (posOf e2 rc.sym).qty (posOf e2 rc.sym).pnl)
   setStrat e3 r (fun s => { s with cachedPrice := none, index := s.index + 1 })
 
 /-! ### matching -/
@@ -639,11 +639,11 @@ def saveDaily (e : Engine M) : Engine M :=
     match e.w.kind with
     | .futures => e.w.wallet + ((List.range e.w.pos.length).map (fun i => (Acc.getD e.w.pos i).pnl)).foldl (· + ·) 0
     | .spot =>
-      -- portfolio_value of the first position's strategy: balance + active entry orders' value of ITS symbol
+      -- portfolio_value of the first position's strategy: balance + the active entry orders' value of EVERY route
       -- + value of all positions
-      let sym0 := 0
-      let entryVal := ((entryOrders e sym0).filter (fun id => (orderOf e id).status = .active)).foldl
-        (fun a id => a + absR (orderOf e id).qty * (orderOf e id).price) 0
+      let entryVal := (e.cfg.routes.map (fun rc =>
+        ((entryOrders e rc.sym).filter (fun id => (orderOf e id).status = .active)).foldl
+          (fun a id => a + absR (orderOf e id).qty * (orderOf e id).price) 0)).foldl (· + ·) 0
       let posVal := ((List.range e.w.pos.length).map (fun i =>
         let p := Acc.getD e.w.pos i
         if p.qty = 0 then 0 else absR (p.current.getD 0 * p.qty))).foldl (· + ·) 0
